@@ -91,6 +91,15 @@ func ruleR36(c *Ctx) {
 				atoms(u, d, out, depth+1)
 				return
 			}
+			// v := start; for ; v < n; v++ { if a[v] != b[v] { break } }: the match-length helper
+			// written out in one copy – v is start + longestCommonPrefix(…)
+			if v, _ := info.ObjectOf(x).(*types.Var); v != nil {
+				if start := inlinedMatchLoop(info, u, v); start != nil {
+					atoms(u, start, out, depth+1)
+					out["longestCommonPrefix()"] = true
+					return
+				}
+			}
 			out[name] = true
 		case *ast.SelectorExpr:
 			if info.Selections[x] != nil {
@@ -319,12 +328,34 @@ func ruleR36(c *Ctx) {
 					return true
 				}
 				f := m.staticCallee(x)
+				if f != nil && u.Obj != nil && f == u.Obj && u.Type != nil && u.Type.Params != nil {
+					// the descent written as a call of the function itself: the argument in the place
+					// of the position parameter is the step of the position
+					i := 0
+					for _, fl := range u.Type.Params.List {
+						for _, nm := range fl.Names {
+							if nm.Name == "depth" && i < len(x.Args) {
+								if be, ok := ast.Unparen(x.Args[i]).(*ast.BinaryExpr); ok && be.Op == token.ADD {
+									if id, ok := ast.Unparen(be.X).(*ast.Ident); ok && id.Name == "depth" {
+										if tv, has := info.Types[be.Y]; has && tv.Value != nil && tv.Value.ExactString() == "1" {
+											out["store depth ++"]++
+										} else {
+											out["store depth +="]++
+										}
+									}
+								}
+							}
+							i++
+						}
+					}
+					return true
+				}
 				if f != nil && f.Pkg() == m.Pkg {
 					tok := "call " + name
 					if m.isRestoreCall(x) {
 						tok = "call RESTORE"
 					} else if sig, ok := f.Type().(*types.Signature); ok && sig.Recv() != nil {
-						if n := namedOf(sig.Recv().Type()); n != nil && (m.isLeafType(n) || m.treeByNamed(n) != nil) {
+						if n := namedOf(sig.Recv().Type()); n != nil && (m.isLeafType(n) || m.treeByNamed(n) != nil || (m.LeafConstraint != nil && n.Origin().Obj() == m.LeafConstraint.Obj())) {
 							tok = "call LEAF/TREE." + f.Name()
 						} else if n != nil && m.kindByStruct(n) != nil {
 							// the size class is the arm of a dispatch, not a difference
@@ -339,6 +370,15 @@ func ruleR36(c *Ctx) {
 						}
 					}
 				} else if isBuiltinCall(info, x, "copy") && len(x.Args) == 2 {
+					// copy(X.f[:], …) into the whole of an array field is a store of the field, as
+					// X.f = … is (the two spellings differ in how much of a shorter source arrives,
+					// which the comparison of targets does not look at)
+					if se, ok := ast.Unparen(x.Args[0]).(*ast.SliceExpr); ok && se.Low == nil && se.High == nil {
+						if _, isArr := info.TypeOf(se.X).Underlying().(*types.Array); isArr {
+							out["store "+storeTarget(u, se.X)]++
+							return true
+						}
+					}
 					out["call copy→"+storeTarget(u, x.Args[0])]++
 				}
 			case *ast.AssignStmt:
@@ -522,33 +562,60 @@ func ruleR36(c *Ctx) {
 	}
 	// countedBy: u is a helper whose boolean result makes its (only) caller step the size counter
 	// (`if t.insert(…) { t.size++ }`): its `return true` is the size step
-	countedBy := func(tk *TreeKind, u *FuncUnit) bool {
+	countedBy := func(tk *TreeKind, u *FuncUnit) string {
 		sizeField := c.sizeField(tk)
 		for _, s := range c.callSitesOf(u) {
-			if s.u.Recv != tk.Name {
+			if s.u.Recv != tk.Name || s.u == u {
 				continue
 			}
-			found := false
+			found := ""
+			stepOf := func(st ast.Stmt) string {
+				if inc, ok := st.(*ast.IncDecStmt); ok && isFieldOf(info, inc.X, sizeField) {
+					return "size" + inc.Tok.String()
+				}
+				return ""
+			}
 			ast.Inspect(s.u.Body, func(n ast.Node) bool {
-				ifs, ok := n.(*ast.IfStmt)
+				blk, ok := n.(*ast.BlockStmt)
 				if !ok {
 					return true
 				}
-				if ast.Unparen(ifs.Cond) != ast.Expr(s.call) {
-					return true
-				}
-				for _, st := range ifs.Body.List {
-					if inc, ok := st.(*ast.IncDecStmt); ok && inc.Tok == token.INC && isFieldOf(info, inc.X, sizeField) {
-						found = true
+				for i, st := range blk.List {
+					ifs, ok := st.(*ast.IfStmt)
+					if !ok {
+						continue
+					}
+					cond := ast.Unparen(ifs.Cond)
+					// if helper(…) { size±± }
+					if cond == ast.Expr(s.call) {
+						for _, b := range ifs.Body.List {
+							if ev := stepOf(b); ev != "" {
+								found = ev
+							}
+						}
+					}
+					// if !helper(…) { return … }; size±±
+					if ue, ok := cond.(*ast.UnaryExpr); ok && ue.Op == token.NOT && ast.Unparen(ue.X) == ast.Expr(s.call) && ifs.Else == nil && len(ifs.Body.List) == 1 {
+						if _, isRet := ifs.Body.List[0].(*ast.ReturnStmt); isRet && i+1 < len(blk.List) {
+							if ev := stepOf(blk.List[i+1]); ev != "" {
+								found = ev
+								// … ; return true: the helper's true is the caller's true as well
+								if i+2 < len(blk.List) {
+									if rs, ok := blk.List[i+2].(*ast.ReturnStmt); ok && len(rs.Results) == 1 && isConstBool(info, rs.Results[0], true) {
+										found = ev + "|return true"
+									}
+								}
+							}
+						}
 					}
 				}
 				return true
 			})
-			if found {
-				return true
+			if found != "" {
+				return found
 			}
 		}
-		return false
+		return ""
 	}
 	var outcomesRec func(tk *TreeKind, u *FuncUnit, depth int) bagT
 	outcomes := func(tk *TreeKind, u *FuncUnit) bagT { return outcomesRec(tk, u, 0) }
@@ -600,10 +667,10 @@ func ruleR36(c *Ctx) {
 					if len(parts) > 0 && parts[len(parts)-1] != "_" {
 						ev = "return " + strings.Join(parts, ",")
 					}
-					if counted && len(parts) == 1 {
+					if counted != "" && len(parts) == 1 {
 						switch parts[0] {
 						case "true":
-							ev = "size++"
+							ev = counted
 						case "false":
 							ev = ""
 						}
@@ -625,7 +692,7 @@ func ruleR36(c *Ctx) {
 						name := m.calleeName(call)
 						if strings.HasSuffix(name, ".deleteChild") || strings.HasSuffix(name, ".addChild") {
 							ev = "call " + name[strings.LastIndex(name, ".")+1:]
-						} else if hu := m.calleeUnit(call); hu != nil && hu != u && hu.Body != nil && hu.Recv == tk.Name && depth < 2 {
+						} else if hu := m.calleeUnit(call); hu != nil && hu != u && hu.Body != nil && (hu.Recv == tk.Name || (hu.Recv == "" && c.takesSlot(hu))) && depth < 2 {
 							// a step of the algorithm extracted into a method of the same tree: its
 							// outcomes happen under the conditions of the call as well
 							here := label(b)
@@ -643,7 +710,9 @@ func ruleR36(c *Ctx) {
 					}
 				}
 				if ev != "" {
-					out[ev+" when "+label(b)]++
+					for _, one := range strings.Split(ev, "|") {
+						out[one+" when "+label(b)]++
+					}
 				}
 			}
 		}
@@ -843,7 +912,8 @@ func ruleR36(c *Ctx) {
 		// a call only one copy makes is replaced by what the callee does – when that brings the
 		// copies closer (the callee makes calls the other copy has in surplus) or the callee makes
 		// no library calls of its own
-		for round := 0; round < 6; round++ {
+		leavesOnly := false // second phase: callees that make no library calls of their own (accessors)
+		for round := 0; round < 8; round++ {
 			changed := false
 			expand := func(x, y bagT, cx map[string][]*FuncUnit) {
 				for _, tok := range sortedKeys(x) {
@@ -855,10 +925,29 @@ func ruleR36(c *Ctx) {
 					sub, subCalls := bagT{}, map[string][]*FuncUnit{}
 					if fc, ok := firstCall[callee]; ok && callee.Type != nil && callee.Type.Params != nil {
 						binding = map[*types.Var]boundArg{}
+						recursive := false
+						if callee.Obj != nil {
+							ast.Inspect(callee.Body, func(z ast.Node) bool {
+								if cc, ok := z.(*ast.CallExpr); ok && m.staticCallee(cc) == callee.Obj {
+									recursive = true
+								}
+								return !recursive
+							})
+						}
 						i := 0
 						for _, f := range callee.Type.Params.List {
 							for _, nm := range f.Names {
 								if v, _ := info.Defs[nm].(*types.Var); v != nil && i < len(fc.call.Args) {
+									if recursive && nm.Name == "depth" {
+										// the position of a recursive descent starts at the outer
+										// argument and is stepped by the inner calls: a variable, not
+										// the constant of the first call
+										if tv, has := info.Types[fc.call.Args[i]]; has && tv.Value != nil {
+											sub["init depth "+tv.Value.ExactString()]++
+										}
+										i++
+										continue
+									}
 									binding[v] = boundArg{fc.u, fc.call.Args[i]}
 								}
 								i++
@@ -879,6 +968,13 @@ func ruleR36(c *Ctx) {
 					if anyCall && !helps {
 						continue
 					}
+					// helpers that structure the algorithm are expanded first on both sides; an
+					// accessor (no calls of its own) only when a difference is still left then –
+					// otherwise leaf.getKey() on one side would be dissolved before the other side's
+					// helper that makes the same call has been opened
+					if !anyCall && !leavesOnly {
+						continue
+					}
 					extra := n - y[tok]
 					x[tok] -= extra
 					if x[tok] == 0 {
@@ -896,7 +992,10 @@ func ruleR36(c *Ctx) {
 			expand(a, b, ca)
 			expand(b, a, cb)
 			if !changed {
-				break
+				if leavesOnly {
+					break
+				}
+				leavesOnly = true
 			}
 		}
 		// how often the counter is stepped in the text depends on where the counting is done (on
@@ -949,4 +1048,87 @@ func ruleR36(c *Ctx) {
 			c.r.bad("R36", key, m.pos(cu.Decl.Pos()), fmt.Sprintf("the two copies of the algorithm disagree – only in %s: %s; only in the template instantiation: %s. One of them carries a slip (or was changed alone)", coll.File, joinShort(onlyA, 4), joinShort(onlyB, 4)), "C08", "C09", "C01")
 		}
 	}
+}
+
+// inlinedMatchLoop: the local v is defined once from an expression and otherwise only stepped by
+// the post statement of a loop whose body leaves the loop at the first position where two byte
+// strings differ (`if a[v] != b[v] { break }`): returns the expression v starts from.
+func inlinedMatchLoop(info *types.Info, u *FuncUnit, v *types.Var) ast.Expr {
+	if u.Body == nil {
+		return nil
+	}
+	var start ast.Expr
+	nDefs, nSteps, okShape := 0, 0, true
+	ast.Inspect(u.Body, func(n ast.Node) bool {
+		switch x := n.(type) {
+		case *ast.AssignStmt:
+			for i, l := range x.Lhs {
+				if identVar(info, l) != v {
+					continue
+				}
+				if (x.Tok == token.DEFINE || x.Tok == token.ASSIGN) && len(x.Lhs) == len(x.Rhs) {
+					nDefs++
+					start = x.Rhs[i]
+				} else {
+					okShape = false
+				}
+			}
+		case *ast.IncDecStmt:
+			if identVar(info, x.X) == v {
+				okShape = false // counted below when it is the post statement of the loop
+			}
+		case *ast.ForStmt:
+			post, isInc := x.Post.(*ast.IncDecStmt)
+			if !isInc || post.Tok != token.INC || identVar(info, post.X) != v {
+				return true
+			}
+			// body: if a[v] != b[v] { break }
+			if len(x.Body.List) != 1 {
+				okShape = false
+				return true
+			}
+			is, isIf := x.Body.List[0].(*ast.IfStmt)
+			if !isIf || is.Else != nil || is.Init != nil || len(is.Body.List) != 1 {
+				okShape = false
+				return true
+			}
+			br, isBr := is.Body.List[0].(*ast.BranchStmt)
+			be, isBe := ast.Unparen(is.Cond).(*ast.BinaryExpr)
+			if !isBr || br.Tok != token.BREAK || !isBe || be.Op != token.NEQ {
+				okShape = false
+				return true
+			}
+			ix, okX := ast.Unparen(be.X).(*ast.IndexExpr)
+			iy, okY := ast.Unparen(be.Y).(*ast.IndexExpr)
+			if !okX || !okY || identVar(info, ix.Index) != v || identVar(info, iy.Index) != v {
+				okShape = false
+				return true
+			}
+			nSteps++
+			// the post statement itself is not a stray step
+			okSaved := okShape
+			ast.Inspect(x.Body, func(z ast.Node) bool {
+				if id, ok := z.(*ast.IncDecStmt); ok && identVar(info, id.X) == v {
+					okSaved = false
+				}
+				return true
+			})
+			okShape = okSaved
+			// for v := start; …: the definition sits in the loop header
+			if as, isAs := x.Init.(*ast.AssignStmt); isAs && len(as.Lhs) == len(as.Rhs) {
+				for i, l := range as.Lhs {
+					if identVar(info, l) == v {
+						nDefs++
+						start = as.Rhs[i]
+					}
+				}
+			}
+			return false // the post statement is not a stray step
+		}
+		return true
+	})
+	if okShape && nDefs == 1 && nSteps == 1 && start != nil {
+		return start
+	}
+	return nil
 }
